@@ -99,8 +99,9 @@ var plans = []Plan{
 
 	{
 		ID: "C14", Level: "exploration",
-		Rule: "every OpenID Connect flow (code, id_token, id_token token, the three hybrid types, device, plus refresh) x signing key (RSA, P-256 as raw key and as JWK, P-384 / P-521 JWK with the matching alg header) x configured ID-token lifetime x session (subject empty or not, auth_time before / equal / after requested_at or absent, pre-set expiry future / past, session issuer, extra claims that collide with reserved names) x request (nonce incl. URL-special characters, max_age, prompt, id_token_hint own / other subject / expired / garbage / foreign key, openid consented or not) on both stores; oracle: every ID token found in any response is verified with the public key and checked for alg, aud, sub, iss, nonce, exp window, at_hash / c_hash against the access token / code of the same response (left-half hash chosen by alg, computed independently), c_hash absent on refresh, and no ID token may exist when a stated blocker holds. Non-trivial: at least one ID token was issued and checked, or exactly one blocker holds; distinct by (key, flow, session shape, request shape, count).",
-		Jobs: []Job{{Test: "TestC14_IDTokens", Shards: [2]int{16, 16}, Checks: [2]int{900, 8000}, Timeout: [2]int{1500, 9000}}},
+		Rule: "every OpenID Connect flow (code, id_token, id_token token, the three hybrid types, device, plus refresh) x signing key (RSA, P-256 as raw key and as JWK, P-384 / P-521 JWK with the matching alg header) x configured ID-token lifetime x session (subject empty or not, auth_time before / equal / after requested_at or absent, pre-set expiry future / past, session issuer, extra claims that collide with reserved names) x request (nonce incl. URL-special characters, max_age, prompt, id_token_hint own / other subject / expired / garbage / foreign key, openid consented or not) on both stores; oracle: every ID token found in any response is verified with the public key and checked for alg, aud, sub, iss, nonce, exp window, at_hash / c_hash against the access token / code of the same response (left-half hash chosen by alg, computed independently), c_hash absent on refresh, and no ID token may exist when a stated blocker holds; TestC14_Strategy calls openid.DefaultStrategy.GenerateIDToken itself with generated sessions and forms (grant_type absent / code / device / refresh) and demands a refusal for every unmet max_age, prompt or id_token_hint condition outside refreshes. Non-trivial: at least one ID token was issued and checked, or exactly one blocker holds; distinct by (key, flow, session shape, request shape, count).",
+		Jobs: []Job{{Test: "TestC14_IDTokens", Shards: [2]int{16, 16}, Checks: [2]int{900, 8000}, Timeout: [2]int{1500, 9000}},
+			{Test: "TestC14_Strategy", Shards: [2]int{4, 8}, Checks: [2]int{1500, 10000}, Timeout: [2]int{900, 3000}}},
 	},
 
 	{
